@@ -91,6 +91,11 @@ def stress_inputs(tier):
     s.append(dict(label="split_files", strategy="client", schema=split_schema(),
                   queries={"q2.graphql": FAN_QUERIES.split("fragment Fa")[0], "sub/frags.gql": "fragment Fa" + FAN_QUERIES.split("fragment Fa", 1)[1], "sub/deeper/more.graphqls": "query Extra { user { id } }\n"},
                   options={"include_comments": "stable"}))
+    parts = split_schema()
+    same = {"types.graphql": parts["b_types.graphql"], "a/types.graphql": parts["a/interfaces.graphqls"], "b/types.graphql": parts["a/deep/unions.gql"], "b/c/types.graphql": parts["z.graphql"]}
+    s.append(dict(label="same_file_names_in_subdirs", strategy="client", schema=same,
+                  queries={"ops.graphql": "query OpA { user { id } }\n", "x/ops.graphql": "query OpB { node { id } }\n", "y/ops.graphql": "query OpC { u { __typename } }\n"}, options={}))
+    s.append(dict(label="same_file_names_graphqlschema", strategy="graphqlschema", schema=same, target="out_schema.graphql"))
     s.append(dict(label="custom_operations", strategy="client", schema=SCHEMA_MANY, queries=QUERIES_MANY, options={"scalars": SCALARS, "enable_custom_operations": True}))
     s.append(dict(label="graphqlschema_py", strategy="graphqlschema", schema=split_schema(), target="out_schema.py"))
     s.append(dict(label="graphqlschema_graphql", strategy="graphqlschema", schema=SCHEMA_MANY, target="out_schema.graphql"))
